@@ -134,12 +134,12 @@ func effectsPass(w *World, id string) []*OwnOb {
 		return false
 	}
 	switch id {
-	case "C01", "C02", "C03", "C04", "C05", "C06", "C07", "C10", "C11", "C12", "C13", "C14", "C17", "C19":
+	case "C01", "C02", "C03", "C04", "C05", "C06", "C07", "C10", "C11", "C12", "C13", "C14", "C15", "C16", "C17", "C19", "C20":
 		// every proof that goes through filterMap or ranges sortedMap uses its assumed contract
 		out = append(out, checkSortedMap(w)...)
 	}
 	switch id {
-	case "C01", "C02", "C07", "C09", "C10", "C12", "C19":
+	case "C01", "C02", "C04", "C07", "C09", "C10", "C12", "C15", "C16", "C17", "C19", "C20":
 		// the ownership obligations rest on the assumed contract of deepClone (an equal tree that shares nothing)
 		out = append(out, checkDeepClone(w)...)
 	}
